@@ -17,7 +17,7 @@ func init() {
 		Technique: "who-may-write census of stream.parent, guard (control-dependence) and dominance/path queries on go/ssa of adjustStreamPriority, loop-header census",
 		Meta: core.Meta{
 			Level:       "other",
-			Explanation: "Decides the structural clauses that keep re-parenting acyclic in bfe_http2.adjustStreamPriority: (1) stream.parent is written only in adjustStreamPriority and only in three reviewed forms (re-parent st, move the new parent out of st's subtree, exclusive adoption of siblings); (2) `st.parent = parent` is reachable only when parent != st was established (self-dependency ignored); (3) it is dominated by the ancestor walk: a cursor that starts at the new parent, advances by .parent, stops at nil and is compared with st, every edge leaving the walk loop is either cursor == nil or cursor == st (no depth/work cap or other early exit can leave ancestors unexamined), and when st is found the new parent is first moved to st's previous parent (`parent.parent = st.parent`) on every path before st is re-parented; (4) the exclusive loop assigns `x.parent = st` only for x != st whose parent equals st's new parent, only under priority.Exclusive and only after st was re-parented; (5) every loop of the function is either a range over the stream map or the nil-terminated parent walk (termination given acyclicity); (6) both callers pass the connection's stream map and processHeaders registers the new stream before prioritising it. Not covered: acyclicity as a graph invariant over arbitrary histories (it follows from these clauses by induction, which the checker does not perform); weights; dependency on streams that were already removed from the map.",
+			Explanation: "Decides the structural clauses that keep re-parenting acyclic in bfe_http2.adjustStreamPriority: (1) stream.parent is written only in adjustStreamPriority and only in three reviewed forms (re-parent st, move the new parent out of st's subtree, exclusive adoption of siblings); (2) `st.parent = parent` is reachable only when parent != st was established (self-dependency ignored); (3) it is dominated by the ancestor walk: a cursor that starts at the new parent, advances by .parent, stops at nil and is compared with st, every edge leaving the walk loop is either cursor == nil or cursor == st (no depth/work cap or other early exit can leave ancestors unexamined), and when st is found the new parent is first moved to st's previous parent (`parent.parent = st.parent`) on every path before st is re-parented (paths on which the new parent is known to be nil are exempt: st becomes a root, no cycle can close); the value moved may be st.parent read into a local ahead of the walk, as long as that read cannot follow the re-parenting store; (4) the exclusive loop assigns `x.parent = st` only for x != st whose parent equals st's new parent, only under priority.Exclusive and only after st was re-parented; (5) every loop of the function is either a range over the stream map or the nil-terminated parent walk (termination given acyclicity); (6) both callers pass the connection's stream map and processHeaders registers the new stream before prioritising it. Robustness: every anchor function is analysed together with its private helpers (unexported functions of bfe_http2 that are never used as values and whose every call site lies in the anchor or another such helper, depth <= 4): stores, calls and loops found there count as the anchor's; values are followed across the call boundary (a helper's parameter is the argument at its single call site, the result of a helper call is the one value the helper returns); guards hold inside a single-call-site helper when they hold at its call site; branch facts are read through negations, mirrored comparisons, named booleans, short-circuit phis (the fact must follow on every edge that can yield the value, edges contradicting other known guards excluded) and boolean helper functions (the fact must follow at every return that can yield the value); dominance, must-pass and reachability are decided on the call-stack-sensitive supergraph of the region (calls of helpers entered, constant boolean results matched with the branch on them in the caller). Not followed: helpers that are used as function values or invoked through an interface, helpers called through defer or go, values passed through struct fields or closures' free variables into a helper, helpers with more than one call site for parameter identity (their code is still attributed to the anchor when all call sites lie in the region). Not covered: acyclicity as a graph invariant over arbitrary histories (it follows from these clauses by induction, which the checker does not perform); weights; dependency on streams that were already removed from the map.",
 			RuleText:    "obligations = each store to stream.parent (census + form), the self-dependency guard, the clauses of the ancestor walk, each exit edge of the walk loop, the guards of the exclusive adoption, each loop header of adjustStreamPriority, each caller",
 		},
 		Run: runC36,
@@ -37,6 +37,10 @@ func init() {
 			{Name: "silent-walk-break-at-root", File: "bfe_http2/server.go", Old: "	for piter := parent; piter != nil; piter = piter.parent {\n		if piter == st {\n", New: "	for piter := parent; ; piter = piter.parent {\n		if piter == nil {\n			break\n		}\n		if piter == st {\n", Silent: true},
 			{Name: "silent-rename-cursor", File: "bfe_http2/server.go", Old: "	for piter := parent; piter != nil; piter = piter.parent {\n		if piter == st {\n", New: "	for anc := parent; anc != nil; anc = anc.parent {\n		if anc == st {\n", Silent: true},
 			{Name: "silent-switch-form", File: "bfe_http2/server.go", Old: "	if parent == st {\n		// if client tries to set this stream to be the parent of itself\n		// ignore and keep going\n		return\n	}\n", New: "	switch {\n	case parent == st:\n		return\n	}\n", Silent: true},
+			{Name: "silent-walk-and-adoption-in-helpers", File: "bfe_http2/server.go", Old: "\tfor piter := parent; piter != nil; piter = piter.parent {\n\t\tif piter == st {\n\t\t\tparent.parent = st.parent\n\t\t\tbreak\n\t\t}\n\t}\n\tst.parent = parent\n\tif priority.Exclusive && (st.parent != nil || priority.StreamDep == 0) {\n\t\tfor _, openStream := range streams {\n\t\t\tif openStream != st && openStream.parent == st.parent {\n\t\t\t\topenStream.parent = st\n\t\t\t}\n\t\t}\n\t}\n}\n", New: "\tdetachFromSubtree(st, parent)\n\tst.parent = parent\n\tif priority.Exclusive && (st.parent != nil || priority.StreamDep == 0) {\n\t\tadoptChildrenOfParent(streams, st)\n\t}\n}\n\nfunc detachFromSubtree(st, parent *stream) {\n\tfor piter := parent; piter != nil; piter = piter.parent {\n\t\tif piter == st {\n\t\t\tparent.parent = st.parent\n\t\t\treturn\n\t\t}\n\t}\n}\n\nfunc adoptChildrenOfParent(streams map[uint32]*stream, st *stream) {\n\tfor _, openStream := range streams {\n\t\tif openStream != st && openStream.parent == st.parent {\n\t\t\topenStream.parent = st\n\t\t}\n\t}\n}\n", Silent: true},
+			{Name: "silent-walk-continue-form-early-returns", File: "bfe_http2/server.go", Old: "\tfor piter := parent; piter != nil; piter = piter.parent {\n\t\tif piter == st {\n\t\t\tparent.parent = st.parent\n\t\t\tbreak\n\t\t}\n\t}\n\tst.parent = parent\n\tif priority.Exclusive && (st.parent != nil || priority.StreamDep == 0) {\n\t\tfor _, openStream := range streams {\n\t\t\tif openStream != st && openStream.parent == st.parent {\n\t\t\t\topenStream.parent = st\n\t\t\t}\n\t\t}\n\t}\n}\n", New: "\tpiter := parent\n\tfor piter != nil {\n\t\tif piter != st {\n\t\t\tpiter = piter.parent\n\t\t\tcontinue\n\t\t}\n\t\tparent.parent = st.parent\n\t\tbreak\n\t}\n\tst.parent = parent\n\tif !priority.Exclusive {\n\t\treturn\n\t}\n\tif st.parent == nil && priority.StreamDep != 0 {\n\t\treturn\n\t}\n\tfor _, openStream := range streams {\n\t\tif openStream == st {\n\t\t\tcontinue\n\t\t}\n\t\tif openStream.parent != st.parent {\n\t\t\tcontinue\n\t\t}\n\t\topenStream.parent = st\n\t}\n}\n", Silent: true},
+			{Name: "silent-old-parent-read-ahead", File: "bfe_http2/server.go", Old: "\tfor piter := parent; piter != nil; piter = piter.parent {\n\t\tif piter == st {\n\t\t\tparent.parent = st.parent\n\t\t\tbreak\n\t\t}\n\t}\n\tst.parent = parent\n\tif priority.Exclusive && (st.parent != nil || priority.StreamDep == 0) {\n\t\tfor _, openStream := range streams {\n\t\t\tif openStream != st && openStream.parent == st.parent {\n\t\t\t\topenStream.parent = st\n\t\t\t}\n\t\t}\n\t}\n}\n", New: "\toldParent := st.parent\n\tfor anc := parent; anc != nil; anc = anc.parent {\n\t\tif anc == st {\n\t\t\tparent.parent = oldParent\n\t\t\tbreak\n\t\t}\n\t}\n\tst.parent = parent\n\tdepIsRoot := priority.StreamDep == 0\n\tif priority.Exclusive && (parent != nil || depIsRoot) {\n\t\tfor _, sibling := range streams {\n\t\t\tif sibling != st && sibling.parent == parent {\n\t\t\t\tsibling.parent = st\n\t\t\t}\n\t\t}\n\t}\n}\n", Silent: true},
+			{Name: "silent-defensive-nil-parent-named-booleans-logging", File: "bfe_http2/server.go", Old: "\tfor piter := parent; piter != nil; piter = piter.parent {\n\t\tif piter == st {\n\t\t\tparent.parent = st.parent\n\t\t\tbreak\n\t\t}\n\t}\n\tst.parent = parent\n\tif priority.Exclusive && (st.parent != nil || priority.StreamDep == 0) {\n\t\tfor _, openStream := range streams {\n\t\t\tif openStream != st && openStream.parent == st.parent {\n\t\t\t\topenStream.parent = st\n\t\t\t}\n\t\t}\n\t}\n}\n", New: "\tlifted := false\n\tfor piter := parent; piter != nil; piter = piter.parent {\n\t\tif piter == st {\n\t\t\tif parent == nil {\n\t\t\t\tbreak\n\t\t\t}\n\t\t\tparent.parent = st.parent\n\t\t\tlifted = true\n\t\t\tbreak\n\t\t}\n\t}\n\tst.parent = parent\n\thasParent := st.parent != nil\n\tdepIsRoot := priority.StreamDep == 0\n\tmakeExclusive := priority.Exclusive && (hasParent || depIsRoot)\n\tadopted := 0\n\tif makeExclusive {\n\t\tfor _, openStream := range streams {\n\t\t\tisSelf := openStream == st\n\t\t\tisSibling := openStream.parent == st.parent\n\t\t\tif !isSelf && isSibling {\n\t\t\t\topenStream.parent = st\n\t\t\t\tadopted++\n\t\t\t}\n\t\t}\n\t}\n\tlog.Logger.Debug(\"http2: priority of stream %d: lifted=%v adopted=%d\", streamID, lifted, adopted)\n}\n", Silent: true},
 		},
 	})
 }
@@ -51,16 +55,27 @@ func runC36(c *core.Ctx) {
 	if fn == nil || parentF == nil {
 		return
 	}
+	if len(fn.Params) < 2 {
+		c.Missing("adjustStreamPriority(streams, streamID, priority): signature changed")
+		return
+	}
+	// the rule looks at adjustStreamPriority together with its private helpers
+	// (the ancestor walk or the sibling loop may live in a helper)
+	reg := e.region(fn)
+	for _, f := range reg.fns {
+		c.Analysed(core.FuncKey(f))
+	}
 	key := func(s string) string { return "adjustStreamPriority:" + s }
+	nilV := h2bNilV
 
 	// the re-prioritised stream: comma-ok lookup in the map parameter
 	var st, newParent ssa.Value
-	for _, in := range h2bAll(fn) {
+	for _, in := range reg.all() {
 		lk, ok := in.(*ssa.Lookup)
-		if !ok || len(fn.Params) < 2 || h2bCanon(lk.X) != fn.Params[0] {
+		if !ok || e.rep(lk.X) != e.rep(fn.Params[0]) {
 			continue
 		}
-		if lk.CommaOk && h2bCanon(lk.Index) == fn.Params[1] {
+		if lk.CommaOk && e.rep(lk.Index) == e.rep(fn.Params[1]) {
 			for _, r := range *lk.Referrers() {
 				if ex, ok := r.(*ssa.Extract); ok && ex.Index == 0 {
 					st = ex
@@ -77,20 +92,20 @@ func runC36(c *core.Ctx) {
 	var sSelf, sMove *ssa.Store
 	var sExcl []*ssa.Store
 	for _, s := range core.FieldStores(e.fns, parentF) {
-		if s.Fn != fn {
+		if !reg.in[s.Fn] {
 			c.Check("parent-writers", h2bShort(s.Fn), s.Store.Pos(), false,
 				"stream.parent is written in "+h2bShort(s.Fn)+"; only adjustStreamPriority maintains the dependency tree (its cycle checks are bypassed)")
 			continue
 		}
 		base, _ := h2bStoreField(s.Store, parentF)
 		switch {
-		case h2bEq(base, st):
+		case e.eq(base, st):
 			ok := sSelf == nil
 			c.Check("parent-writers", key("reparent"), s.Store.Pos(), ok, "more than one `st.parent = …` store in adjustStreamPriority")
 			if sSelf == nil {
 				sSelf = s.Store
 			}
-		case h2bIsRangeElem(base):
+		case h2bIsRangeElem(e.rep(base)):
 			sExcl = append(sExcl, s.Store)
 			c.Check("parent-writers", key(fmt.Sprintf("exclusive-adopt#%d", len(sExcl))), s.Store.Pos(), true, "")
 		default:
@@ -106,85 +121,122 @@ func runC36(c *core.Ctx) {
 		c.Check("parent-writers", key("reparent"), fn.Pos(), false, "no store `st.parent = …` for the re-prioritised stream found")
 		return
 	}
-	newParent = sSelf.Val
+	newParent = e.rep(sSelf.Val)
 	// the new parent is the map entry of priority.StreamDep
 	{
-		lk, ok := h2bCanon(newParent).(*ssa.Lookup)
-		okP := ok && !lk.CommaOk && h2bCanon(lk.X) == fn.Params[0]
+		lk, ok := newParent.(*ssa.Lookup)
+		okP := ok && !lk.CommaOk && e.rep(lk.X) == e.rep(fn.Params[0])
 		if okP {
-			f, _ := h2bAnyFieldLoad(lk.Index)
+			f, _ := h2bAnyFieldLoad(e.rep(lk.Index))
 			okP = f != nil && f.Name() == "StreamDep"
 		}
 		c.Check("ancestor-walk", key("new-parent-source"), sSelf.Pos(), okP,
 			"st.parent is assigned "+core.Render(newParent)+", expected streams[priority.StreamDep]")
 	}
+	// a path on which the new parent is known to be nil cannot close a cycle: st becomes a root
+	parentNil := map[*ssa.BasicBlock]bool{}
+	knownRoot := func(b *ssa.BasicBlock) bool {
+		v, ok := parentNil[b]
+		if !ok {
+			v = e.guarded(b, func(r h2bRel) bool { return r.Cmp(token.EQL, e.is(newParent), nilV) })
+			parentNil[b] = v
+		}
+		return v
+	}
 
 	// (2) self dependency
 	c.Check("self-dep", key("reparent"), sSelf.Pos(),
-		h2bGuarded(sSelf.Block(), func(r h2bRel) bool { return r.Cmp(token.NEQ, h2bIs(newParent), h2bIs(st)) }),
-		"`st.parent = parent` is reachable without parent != st having been established (a stream may become its own parent); guards: "+h2bGuardList(sSelf.Block()))
+		e.guarded(sSelf.Block(), func(r h2bRel) bool { return r.Cmp(token.NEQ, e.is(newParent), e.is(st)) }),
+		"`st.parent = parent` is reachable without parent != st having been established (a stream may become its own parent); guards: "+e.guardList(sSelf.Block()))
 	c.Min("self-dep", 1)
 
-	// (3) ancestor walk
+	// (3) ancestor walk: a cursor every incoming value of which is the new parent
+	// or the cursor's own .parent (at least one of each)
 	var cursor *ssa.Phi
-	for _, in := range h2bAll(fn) {
+	for _, in := range reg.all() {
 		phi, ok := in.(*ssa.Phi)
-		if !ok || len(phi.Edges) != 2 {
+		if !ok || len(phi.Edges) < 2 {
 			continue
 		}
-		for i := 0; i < 2; i++ {
-			if !h2bEq(phi.Edges[i], newParent) {
-				continue
+		nStart, nStep := 0, 0
+		for _, ed := range phi.Edges {
+			if base, ok := h2bFieldLoad(ed, parentF); ok && h2bCanon(base) == ssa.Value(phi) {
+				nStep++
+			} else if e.eq(ed, newParent) {
+				nStart++
+			} else {
+				nStart, nStep = -1000, -1000
 			}
-			if base, ok := h2bFieldLoad(phi.Edges[1-i], parentF); ok && h2bCanon(base) == ssa.Value(phi) {
-				cursor = phi
-			}
+		}
+		if nStart > 0 && nStep > 0 {
+			cursor = phi
 		}
 	}
 	c.Check("ancestor-walk", key("cursor"), fn.Pos(), cursor != nil,
 		"no cursor that starts at the new parent and advances by .parent (for piter := parent; …; piter = piter.parent) found")
 	if cursor != nil {
 		hdr := cursor.Block()
-		// nil-terminated
+		wfn := hdr.Parent()
+		var walk *core.Loop
+		for _, l := range core.Loops(wfn) {
+			if l.Header == hdr {
+				walk = l
+			}
+		}
+		// nil-terminated: inside the walk the cursor is tested against nil
 		nilTest := false
-		if ifi := h2bIfOf(hdr); ifi != nil {
-			r := h2bRelOfCond(ifi.Cond, true)
-			nilTest = r.Cmp(token.NEQ, h2bIs(cursor), h2bNilV) || r.Cmp(token.EQL, h2bIs(cursor), h2bNilV)
+		for _, ifi := range h2bIfs(wfn) {
+			if walk != nil && walk.Body[ifi.Block()] {
+				r := h2bRelOfCond(ifi.Cond, true)
+				if r.Cmp(token.NEQ, e.is(cursor), nilV) || r.Cmp(token.EQL, e.is(cursor), nilV) {
+					nilTest = true
+				}
+			}
 		}
-		c.Check("ancestor-walk", key("nil-terminated"), hdr.Instrs[0].Pos(), nilTest, "the walk's loop header does not test the cursor against nil")
-		c.Check("ancestor-walk", key("dominates-reparent"), sSelf.Pos(), hdr.Dominates(sSelf.Block()) && hdr != sSelf.Block(),
+		c.Check("ancestor-walk", key("nil-terminated"), hdr.Instrs[0].Pos(), nilTest, "the walk's loop does not test the cursor against nil")
+		c.Check("ancestor-walk", key("dominates-reparent"), sSelf.Pos(), reg.dominates(cursor, sSelf),
 			"`st.parent = parent` is not dominated by the ancestor walk: the stream can be re-parented under one of its own descendants without the walk having run")
-		// the comparison with st
-		var found *ssa.If
-		for _, ifi := range h2bIfs(fn) {
-			if !hdr.Dominates(ifi.Block()) {
-				continue
-			}
-			if h2bRelOfCond(ifi.Cond, true).Cmp(token.EQL, h2bIs(cursor), h2bIs(st)) {
-				found = ifi
+		// the comparison with st (either spelling: `if piter == st {…}` or `if piter != st {advance; continue}`)
+		var inWalk []*ssa.If
+		for _, ifi := range h2bIfs(wfn) {
+			if hdr.Dominates(ifi.Block()) {
+				inWalk = append(inWalk, ifi)
 			}
 		}
+		found, hit := e.branchOn(inWalk, func(r h2bRel) bool { return r.Cmp(token.EQL, e.is(cursor), e.is(st)) }, nil)
 		c.Check("ancestor-walk", key("compares-with-st"), hdr.Instrs[0].Pos(), found != nil,
 			"inside the walk the cursor is never compared with the re-prioritised stream st")
-		c36WalkComplete(c, fn, hdr, cursor, st, key)
+		c36WalkComplete(c, e, walk, hdr, cursor, st, key)
 		if found != nil {
-			hit := found.Block().Succs[0]
-			isMove := func(in ssa.Instruction) bool { return sMove != nil && in == ssa.Instruction(sMove) }
-			bad := h2bReachFromBlock(hit, isMove, h2bInstrIs(sSelf))
+			isMove := func(in ssa.Instruction) bool {
+				return (sMove != nil && in == ssa.Instruction(sMove)) || knownRoot(in.Block())
+			}
+			// an edge taken only when the new parent is nil leads to no cycle either
+			rootEdge := func(b *ssa.BasicBlock, i int) bool {
+				ifi := h2bIfOf(b)
+				return ifi != nil && h2bImplies(e, ifi.Cond, i == 0, func(r h2bRel) bool { return r.Cmp(token.EQL, e.is(newParent), nilV) }, 0)
+			}
+			bad := reg.reachE([]h2bAt{{hit, 0}}, isMove, h2bInstrIs(sSelf), rootEdge)
 			c.Check("ancestor-walk", key("move-before-reparent"), h2bPos(found), sMove != nil && bad == nil,
 				"when st is found among the new parent's ancestors, `st.parent = parent` is reached without first executing `parent.parent = st.parent`: a cycle is created")
 		}
 		if sMove != nil {
 			base, _ := h2bStoreField(sMove, parentF)
-			vb, isLoad := h2bFieldLoad(sMove.Val, parentF)
-			c.Check("ancestor-walk", key("move-form"), sMove.Pos(), h2bEq(base, newParent) && isLoad && h2bEq(vb, st),
+			vb, isLoad := h2bFieldLoad(e.rep(sMove.Val), parentF)
+			c.Check("ancestor-walk", key("move-form"), sMove.Pos(), e.eq(base, newParent) && isLoad && e.eq(vb, st),
 				"the dependency move is "+core.Render(sMove.Addr)+" = "+core.Render(sMove.Val)+", expected parent.parent = st.parent (RFC 7540 5.3.3)")
 			c.Check("ancestor-walk", key("move-guard"), sMove.Pos(),
-				h2bGuarded(sMove.Block(), func(r h2bRel) bool { return r.Cmp(token.EQL, h2bIs(cursor), h2bIs(st)) }),
-				"parent.parent is rewritten although st was not found among the new parent's ancestors; guards: "+h2bGuardList(sMove.Block()))
-			// st.parent must be read before it is overwritten
-			c.Check("ancestor-walk", key("move-reads-old-parent"), sMove.Pos(), core.ReachAvoiding(fn, sSelf, nil, h2bInstrIs(sMove)) == nil,
-				"`parent.parent = st.parent` can execute after st.parent was already overwritten")
+				e.guarded(sMove.Block(), func(r h2bRel) bool { return r.Cmp(token.EQL, e.is(cursor), e.is(st)) }),
+				"parent.parent is rewritten although st was not found among the new parent's ancestors; guards: "+e.guardList(sMove.Block()))
+			// st.parent must be read before it is overwritten: the load whose value is
+			// moved (it may be a named local read ahead of the walk) is not reachable
+			// from the re-parenting store
+			okRead := isLoad
+			if ld, isIn := e.rep(sMove.Val).(ssa.Instruction); isLoad && isIn {
+				okRead = reg.reachAfter(sSelf, nil, h2bInstrIs(ld)) == nil
+			}
+			c.Check("ancestor-walk", key("move-reads-old-parent"), sMove.Pos(), okRead,
+				"`parent.parent = st.parent` can read st.parent after it was already overwritten")
 		} else {
 			c.Check("ancestor-walk", key("move-form"), fn.Pos(), false, "no store moving the new parent out of st's subtree (parent.parent = st.parent)")
 		}
@@ -196,60 +248,74 @@ func runC36(c *core.Ctx) {
 	for i, s := range sExcl {
 		k := key(fmt.Sprintf("exclusive-adopt#%d", i+1))
 		elem, _ := h2bStoreField(s, parentF)
-		c.Check("exclusive", k+":value", s.Pos(), h2bEq(s.Val, st), "exclusive adoption stores "+core.Render(s.Val)+" as parent, expected the re-prioritised stream")
+		c.Check("exclusive", k+":value", s.Pos(), e.eq(s.Val, st), "exclusive adoption stores "+core.Render(s.Val)+" as parent, expected the re-prioritised stream")
 		c.Check("exclusive", k+":not-self", s.Pos(),
-			h2bGuarded(s.Block(), func(r h2bRel) bool { return r.Cmp(token.NEQ, h2bIs(elem), h2bIs(st)) }),
-			"the exclusive loop can make st its own parent: the adoption is not guarded by openStream != st; guards: "+h2bGuardList(s.Block()))
+			e.guarded(s.Block(), func(r h2bRel) bool { return r.Cmp(token.NEQ, e.is(elem), e.is(st)) }),
+			"the exclusive loop can make st its own parent: the adoption is not guarded by openStream != st; guards: "+e.guardList(s.Block()))
+		// st's (new) parent: st.parent re-read, or the value that was just stored into it
+		stParent := func(v ssa.Value) bool {
+			if e.eq(v, newParent) {
+				return true
+			}
+			b, ok := h2bFieldLoad(e.rep(v), parentF)
+			return ok && e.eq(b, st)
+		}
 		c.Check("exclusive", k+":sibling-only", s.Pos(),
-			h2bGuarded(s.Block(), func(r h2bRel) bool {
-				return r.Cmp(token.EQL, func(v ssa.Value) bool { b, ok := h2bFieldLoad(v, parentF); return ok && h2bEq(b, elem) },
-					func(v ssa.Value) bool { b, ok := h2bFieldLoad(v, parentF); return ok && h2bEq(b, st) })
+			e.guarded(s.Block(), func(r h2bRel) bool {
+				return r.Cmp(token.EQL, e.fieldLoadOn(parentF, elem), stParent)
 			}),
-			"the exclusive loop adopts streams that are not children of st's new parent (an ancestor of st could become its child); guards: "+h2bGuardList(s.Block()))
+			"the exclusive loop adopts streams that are not children of st's new parent (an ancestor of st could become its child); guards: "+e.guardList(s.Block()))
 		c.Check("exclusive", k+":flag", s.Pos(),
-			h2bGuarded(s.Block(), func(r h2bRel) bool {
-				return r.Flag(true, func(v ssa.Value) bool { f, _ := h2bAnyFieldLoad(v); return f != nil && f.Name() == "Exclusive" })
+			e.guarded(s.Block(), func(r h2bRel) bool {
+				return r.Flag(true, func(v ssa.Value) bool { f, _ := h2bAnyFieldLoad(e.rep(v)); return f != nil && f.Name() == "Exclusive" })
 			}),
 			"siblings are adopted although priority.Exclusive was not tested")
-		c.Check("exclusive", k+":after-reparent", s.Pos(), core.Dominates(sSelf, s),
+		c.Check("exclusive", k+":after-reparent", s.Pos(), reg.dominates(sSelf, s),
 			"siblings are adopted before st itself was re-parented (st.parent still names the old parent)")
 	}
 	c.Min("exclusive", 5)
 
 	// (5) loops
-	for i, h := range h2bLoopHeaders(fn) {
-		kind := ""
-		for _, in := range h.Instrs {
-			if _, ok := in.(*ssa.Next); ok {
-				kind = "range"
+	nLoop := 0
+	for _, f := range reg.fns {
+		for _, h := range h2bLoopHeaders(f) {
+			nLoop++
+			kind := ""
+			for _, in := range h.Instrs {
+				if _, ok := in.(*ssa.Next); ok {
+					kind = "range" // the header of a range loop asks the iterator for the next element
+				}
+				if cursor != nil && in == ssa.Instruction(cursor) {
+					kind = "parent-walk"
+				}
 			}
-			if cursor != nil && in == ssa.Instruction(cursor) {
-				kind = "parent-walk"
-			}
+			c.Check("prio-loops", key(fmt.Sprintf("loop#%d", nLoop)), h2bPos(h.Instrs[len(h.Instrs)-1]), kind != "",
+				"adjustStreamPriority contains a loop that is neither a range over the stream map nor the nil-terminated parent walk; its termination is not reviewed")
 		}
-		c.Check("prio-loops", key(fmt.Sprintf("loop#%d", i+1)), h2bPos(h.Instrs[len(h.Instrs)-1]), kind != "",
-			"adjustStreamPriority contains a loop that is neither a range over the stream map nor the nil-terminated parent walk; its termination is not reviewed")
 	}
 	c.Min("prio-loops", 2)
 
 	// (6) callers
 	streamsF := e.field("serverConn.streams")
+	ph := c.P.Func(h2bPkg, "serverConn.processHeaders")
 	for _, s := range e.callSites("adjustStreamPriority") {
-		k := h2bShort(s.Fn)
+		home := e.home(s.Fn, ph)
+		k := h2bShort(home)
 		args := s.Call.Common().Args
-		_, okMap := h2bFieldLoad(args[0], streamsF)
+		_, okMap := h2bFieldLoad(e.rep(args[0]), streamsF)
 		c.Check("prio-callers", k+":map", s.Call.Pos(), streamsF != nil && okMap, "adjustStreamPriority is applied to "+core.Render(args[0])+", expected the connection's stream map sc.streams")
-		if h2bShort(s.Fn) == "serverConn.processHeaders" {
+		if ph != nil && home == ph {
 			// the new stream is registered first
-			var reg ssa.Instruction
-			for _, in := range h2bAll(s.Fn) {
+			preg := e.region(ph)
+			var regIn ssa.Instruction
+			for _, in := range preg.all() {
 				if mu, ok := in.(*ssa.MapUpdate); ok {
-					if _, ok := h2bFieldLoad(mu.Map, streamsF); ok {
-						reg = in
+					if _, ok := h2bFieldLoad(e.rep(mu.Map), streamsF); ok {
+						regIn = in
 					}
 				}
 			}
-			c.Check("prio-callers", k+":registered-first", s.Call.Pos(), reg != nil && core.Dominates(reg, s.Call.(ssa.Instruction)),
+			c.Check("prio-callers", k+":registered-first", s.Call.Pos(), regIn != nil && preg.dominates(regIn, s.Call.(ssa.Instruction)),
 				"processHeaders prioritises the new stream before registering it in sc.streams (the PRIORITY information of HEADERS is lost / applied to a stale entry)")
 		}
 	}
@@ -272,12 +338,9 @@ func h2bIsRangeElem(v ssa.Value) bool {
 // unexamined: a descendant of st beyond the cut-off is not recognised and
 // `st.parent = parent` closes a cycle. One obligation per edge leaving the
 // natural loop of the cursor.
-func c36WalkComplete(c *core.Ctx, fn *ssa.Function, hdr *ssa.BasicBlock, cursor *ssa.Phi, st ssa.Value, key func(string) string) {
+func c36WalkComplete(c *core.Ctx, e *h2bEnv, l *core.Loop, hdr *ssa.BasicBlock, cursor *ssa.Phi, st ssa.Value, key func(string) string) {
 	nExit := 0
-	for _, l := range core.Loops(fn) {
-		if l.Header != hdr {
-			continue
-		}
+	if l != nil {
 		var blocks []*ssa.BasicBlock
 		for b := range l.Body {
 			blocks = append(blocks, b)
@@ -295,11 +358,9 @@ func c36WalkComplete(c *core.Ctx, fn *ssa.Function, hdr *ssa.BasicBlock, cursor 
 					if si == 1 {
 						why = "!" + why
 					}
-					for _, r := range h2bExpand(ifi.Cond, si == 0, 0) {
-						if r.Cmp(token.EQL, h2bIs(cursor), h2bNilV) || r.Cmp(token.EQL, h2bIs(cursor), h2bIs(st)) {
-							ok = true
-						}
-					}
+					ok = h2bImplies(e, ifi.Cond, si == 0, func(r h2bRel) bool {
+						return r.Cmp(token.EQL, e.is(cursor), h2bNilV) || r.Cmp(token.EQL, e.is(cursor), e.is(st))
+					}, 0)
 				}
 				c.Check("walk-complete", key(fmt.Sprintf("walk-exit#%d", nExit)), h2bPos(b.Instrs[len(b.Instrs)-1]), ok,
 					"the ancestor walk can stop on "+why+", i.e. before it reached the root (cursor == nil) or found st: a descendant of st beyond that point is not detected and re-parenting st under it creates a cycle (RFC 7540 5.3.3)")
